@@ -238,6 +238,32 @@ Open Scope string_scope.
           end
       | _, _ => bad_case
       end.
+
+    (* ---- CallSequence(steps): consecutive calls made back to back in one process; step = [direction (0 forward, 1 backward); list; crs].
+       The model is stateless (Project.run_history): every step is judged exactly as the same call on its own, so an answer that depends
+       on what was called before - a cache keyed on the code, a stale CRS - shows as a failure of that step. ---- *)
+    Definition d_step (st ob : val) : verdict :=
+      match st with
+      | VL [VZ dir; pl; VZ crs] =>
+          if (dir =? 0)%Z then d_to_projected [pl; VZ crs] ob
+          else if (dir =? 1)%Z then d_to_geographic [pl; VZ crs] ob else bad_case
+      | _ => bad_case
+      end.
+    Definition d_sequence (args : list val) (obs : val) : verdict :=
+      match args, obs with
+      | [VL steps], VL obss =>
+          if negb (length steps =? length obss)%nat then bad_case
+          else
+            let vs := map2 d_step steps obss in
+            if existsb (fun v => String.eqb (v_class v) "bad-case") vs then bad_case
+            else if existsb (fun v => String.eqb (v_class v) "skipped") vs then skipped_case
+            else
+              let unexcused := existsb (fun v => negb (v_prop v) && String.eqb (v_class v) "-") vs in
+              let cls := if unexcused then "-"
+                         else match find (fun v => negb (String.eqb (v_class v) "-")) vs with Some v => v_class v | None => "-" end in
+              mkv (forallb v_corr vs) (forallb v_prop vs) cls (VL (map v_model vs))
+      | _, _ => bad_case
+      end.
   End WithOracle.
 
   (* ---- EpsgCodes(): the table the model calls "known" is the library's table (sorted) ---- *)
@@ -249,4 +275,4 @@ Open Scope string_scope.
 
 Definition table_C18 : table :=
   [("ConvertPointListToProjectedPointList", d_to_projected); ("ConvertProjectedPointListToPointList", d_to_geographic);
-   ("ProjectRoundTrip", d_round_trip); ("EpsgCodes", fun _ => d_epsg_codes)].
+   ("ProjectRoundTrip", d_round_trip); ("CallSequence", d_sequence); ("EpsgCodes", fun _ => d_epsg_codes)].
